@@ -77,8 +77,28 @@ Definition dealloc_attempts (s : state) (o : nat) : Z :=
 
 (* ---- bounds: the 29-bit count fields do not overflow (an explicit hypothesis of every theorem) *)
 Definition LIM : Z := 2 ^ 28.
-Definition bounded (s : state) : Prop :=
+(* the arguments of the remaining operations are sane: destination slots exist (the model's [setv] is a
+   no-op beyond the variable array, which would silently lose the share just created) and the const-generic
+   counts of new_many / new_many_iter / weak_many fit the count fields (FINDING F2/F3 of NOTES_RcP.md:
+   without this, weak_many::<2^30> adds 2^59 to the word, i.e. flips DESTRUCTED, with every field < LIM) *)
+Definition op_ok (n : nat) (op : list Z) : Prop :=
+  match op with
+  | [0; d] => (nat_of d < n)%nat
+  | [1; c; d] => 0 <= c < LIM /\ (nat_of d + nat_of c <= n)%nat
+  | [2; c; d] => 0 <= c < LIM /\ (nat_of d < n)%nat
+  | [_; _; d] => (nat_of d < n)%nat
+  | [10; _; c; _] => 0 < c < LIM     (* weak_many::<0> (increment_weak(0)) is not covered by the weak-side accounting *)
+  | [32; _; _; _; _; d] => (nat_of d < n)%nat
+  | [33; _; _; _; _; _; d] => (nat_of d < n)%nat
+  | _ => True
+  end.
+Definition fields_bounded (s : state) : Prop :=
   forall o ob, geto s o = Some ob -> 0 <= word ob < 2 ^ 64 /\ strong (word ob) < LIM /\ weak (word ob) < LIM.
+(* [err s = 0]: the oracle never made the model start a deferred function that was not pending (error 1:
+   the model flags it but goes on, FINDING F1), and the other model-level errors did not occur either *)
+Definition bounded (s : state) : Prop :=
+  fields_bounded s /\ err s = 0 /\
+  forall t x, gett s t = Some x -> Forall (op_ok (length (vars x))) (prog x).
 
 (* ---- the count protocol (J1..J3 of DESIGN.md Appendix A.4), per live object *)
 Record obj_inv (s : state) (o : nat) (ob : obj) : Prop := {
@@ -125,6 +145,18 @@ Fixpoint live_counted (s : state) (sched : list (nat * list Z)) : Prop :=
   | (t, rec) :: r => match micro s t rec with Some (s', _) => live_counted s' r | None => live_counted s r end
   end.
 
+(* try_dealloc frees only what has been dropped: a count word with weak = 0 on a block not yet freed belongs to a
+   dropped payload (the strong side holds one weak share until pop_edges/drop have run).  This is a consequence of
+   the weak-side invariant (RcWeakP.v); the strong-side theorems take it as a run hypothesis. *)
+Definition tde_ok (s : state) : Prop :=
+  forall o ob, geto s o = Some ob -> weak (word ob) = 0 -> freed ob = false -> dropped ob = true.
+Fixpoint tde_run (s : state) (sched : list (nat * list Z)) : Prop :=
+  tde_ok s /\
+  match sched with
+  | [] => True
+  | (t, rec) :: r => match micro s t rec with Some (s', _) => tde_run s' r | None => tde_run s r end
+  end.
+
 (* programs that allocate every object themselves: no initial objects, no initial handles *)
 Definition fresh_start (s : state) : Prop :=
   objs s = [] /\ pending s = [] /\
@@ -152,9 +184,19 @@ Definition C04_statement : Prop :=
 
 (* C05: the DESTRUCTED flag is final; an increment (Weak::upgrade, Snapshot::counted, Rc::clone) reports
    success iff the count word it observed last was not destructed; while an owner exists it succeeds at once *)
-Definition C05_monotone_statement : Prop :=
+(* the field widths are needed: on a word with all of bits 0..59 set, fetch_add(COUNT) carries into DESTRUCTED
+   (Example C05_monotone_needs_bounds in RcP.v) *)
+Definition C05_monotone_unbounded : Prop :=
   forall s t rec s' obs o ob ob', micro s t rec = Some (s', obs) ->
     geto s o = Some ob -> geto s' o = Some ob' -> destructed (word ob) = true -> destructed (word ob') = true.
+(* the flag is final along every run from a fresh start.  (For an ARBITRARY state it is false even with the bounds:
+   a frame FKid119 c wc nxt with a garbage [nxt] on a destructed object rewrites the whole word; such frames do not
+   occur in reachable states, see frame_wf / Inv' in RcP.v.) *)
+Definition C05_monotone_statement : Prop :=
+  forall s0 sched t rec s' obs, fresh_start s0 -> bounded_run s0 sched -> live_counted s0 sched ->
+  let s := mrun s0 sched in
+  micro s t rec = Some (s', obs) -> bounded s' ->
+  forall o ob ob', geto s o = Some ob -> geto s' o = Some ob' -> destructed (word ob) = true -> destructed (word ob') = true.
 
 Definition C05_upgrade_statement : Prop :=
   forall s0 sched t rec s' obs x o c k, fresh_start s0 -> bounded_run s0 sched -> live_counted s0 sched ->
